@@ -475,5 +475,13 @@ def rule_strategy(repo, tier):
     return res
 
 
-def rules(repo, tier):
+def _rules_core(repo, tier):
     return [rule_ts(repo, tier), rule_rej_exc_strat(repo, tier), rule_strategy(repo, tier)]
+
+
+def rules(repo, tier):
+    from ..memo import rule_memo
+    return list(_rules_core(repo, tier)) + [rule_memo(repo, 'C08.MEMO', 'history independence: nothing computed from the contents of a tensor argument is kept '
+                                                      'under the identity, address or version of that tensor, in module-level storage, or published from a generator '
+                                                      'before it is complete - a later call with the same object and other contents must not be answered from it',
+                                                      ['pypose.optim.optimizer', 'pypose.optim.strategy'], floor=3)]
